@@ -5,7 +5,7 @@ answers are checked and discarded; (3) the same shadow invocations inside direct
 runs under the chaos policy (vmon/direct.py): states with plans in the future, overdue
 placements, re-plans, cancellations and tasks below a parent that carry their own known
 release time."""
-from .e2e_checks import E2ECheck, RULES
+from .e2e_checks import E2ECheck, RULES, BASE_MIX
 
 RULES["C10"] = ("a world in which some schedule() call (live or shadow) saw running or previously scheduled tasks",
                 lambda s: s["counters"].get("schedule_calls_busy", 0) + s["counters"].get("shadow_calls_busy", 0) > 0, 80)
@@ -20,7 +20,7 @@ class PolicyCheck(E2ECheck):
 
     def mix(self, tier):
         return [("greedy", {}, 0.3), ("greedy", {"zero_runtime": True, "specific_ids": 0.3, "multi_instance": 0.5}, 0.1),
-                ("planner", {"loop_timeout": 150}, 0.45), ("clockwork", {}, 0.15)]
+                ("planner", {"loop_timeout": 150}, 0.45), ("clockwork", {}, 0.15)] + [m for m in BASE_MIX if m[1].get("small_burst")]
 
     def deciding_counters(self, tot):
         out = [("live schedule() calls", tot.get("schedule_calls", 0), 1500),
